@@ -400,10 +400,15 @@ def rule_combined(run):
             run.ob(got.get(al) == exp, name, file=sc.rel, line=f.node.lineno, detail=f"stored_active_low={al}", expected=exp, found=str(got.get(al)))
     for fn, combine in (("or_reset", lambda p, e: p or e), ("and_reset", lambda p, e: p and e)):
         f = sc.func(f"SequentialContext.{fn}")
-        logics = [g for g in ast.walk(f.node) if isinstance(g, ast.FunctionDef) and g is not f.node and any(isinstance(x, ast.If) and src(x.test) == "active_low" for x in g.body)]
+        def _is_split(x):
+            return isinstance(x, ast.If) and x.orelse and all(any("active_low_signal()" in src(a) or "active_high_signal()" in src(a) for a in ast.walk(ast.Module(body=arm, type_ignores=[])) if isinstance(a, ast.AugAssign)) for arm in (x.body, x.orelse))
+        logics = [g for g in ast.walk(f.node) if isinstance(g, ast.FunctionDef) and g is not f.node and any(_is_split(x) for x in g.body)]
         if len(logics) != 1:
             raise AnalysisError(f"{fn}: combining logic with the polarity split not found")
-        split = [x for x in logics[0].body if isinstance(x, ast.If) and src(x.test) == "active_low"][0]
+        split = [x for x in logics[0].body if _is_split(x)][0]
+        # the level logic is chosen by the polarity the NEW reset is declared with (Reset(.., active_low=active_low) below)
+        run.ob(src(split.test) == "active_low", f"SequentialContext.{fn}", file=sc.rel, line=split.lineno, detail="split-on-requested-polarity", expected="if active_low:  (the polarity of the derived reset)",
+               found=src(split.test)[:60])
         for al, body in ((True, split.body), (False, split.orelse)):
             asg = [a for a in body if isinstance(a, ast.AugAssign) and isinstance(a.op, ast.LShift)]
             if len(asg) != 1 or not isinstance(asg[0].value, ast.BoolOp) or len(asg[0].value.values) != 2:
